@@ -109,7 +109,7 @@ def use_miss_reason(case, table, node, v, rinner, arrays):
     return f'reader-uses-set-misses-it:{type(node).__name__}'
 
 
-def diagnose_raw(ir_root, start, v):
+def diagnose_raw(ir_root, start, v, names_of=names_of):
     """
     Model of ``FindReads(start=start, candidate_set={v}, clear_candidates_on_write=True).visit(ir_root)`` for one
     variable that records *where* the candidate is registered as read or dropped. Returns (events, ) with events
@@ -300,17 +300,24 @@ def check_case(case, ctx):
                                 if key not in writes_cache:
                                     fw = FindWrites(stop=node, active=True)
                                     fw.visit(ir_root)
-                                    writes_cache[key] = names_of(fw.writes)
+                                    writes_cache[key] = (names_of(fw.writes), dc.spelled_names_of(fw.writes))
                                 if host_read:
                                     why = 'read-by-internal-procedure-through-host-association'
-                                elif v not in writes_cache[key]:
+                                elif v not in writes_cache[key][0]:
                                     why = 'writer-defines-set-misses-it:' + table.get(f'{parent}.{iw}', {}).get('kind', '?')
+                                elif v not in writes_cache[key][1]:
+                                    # written through an associate name: the candidate carries that name, not the selector's
+                                    why = 'associate-name-not-resolved-to-selector'
                                 else:
                                     events = diagnose_raw(ir_root, node, v)
                                     clears = [e for e in events if e[0] == 'clear']
                                     rnode = reading_leaf(reader, rinner)
                                     if any(e[0] == 'read' for e in events):
-                                        why = 'query-logic:model-of-FindReads-predicts-a-report'
+                                        # the model sees the read when associate names are folded to their selectors;
+                                        # does it also see it with the names as loki spells them?
+                                        spelled = diagnose_raw(ir_root, node, v, names_of=dc.spelled_names_of)
+                                        why = 'query-logic:model-of-FindReads-predicts-a-report' \
+                                            if any(e[0] == 'read' for e in spelled) else 'associate-name-not-resolved-to-selector'
                                     elif clears and clears[0][1] is not rnode:
                                         why = clear_reason(clears[0], v, arrays)
                                     elif rnode is None:
